@@ -108,6 +108,15 @@ func (g *Gen) Run() (err error) {
 		g.params[fv.Name()] = v
 		g.typeFacts("true", v)
 	}
+	// entry-state fields of struct-pointer parameters are part of every counter-model report
+	for _, p := range fn.Params {
+		if pt, ok := p.Type().Underlying().(*types.Pointer); ok {
+			if _, ok := pt.Elem().Underlying().(*types.Struct); ok {
+				fv := g.load(g.heap0, g.ptrTo(g.vals[p].S, pt.Elem()))
+				g.watchVal("entry "+p.Name(), fv)
+			}
+		}
+	}
 	g.collectDebugRefs()
 	g.findLoops()
 	// preconditions
